@@ -137,9 +137,19 @@ def check(ctx):
             dmap = dict(chain)
             dmap['else'] = const_of(e)
     kc, qc, nc = cas['KING_CASTLING'], cas['QUEEN_CASTLING'], cas['NO_CASTLING']
-    ok = codes is not None and codes.get(kc) is not None and dmap.get(0) == nc and \
-        dmap.get(codes[kc]) == kc and codes['other'] not in (0, codes[kc]) and \
-        (dmap.get(codes['other'], dmap.get('else')) == qc) and cw is not None and codes['other'] < (1 << cw)
+    # by value: castling(create_castling(w)) == w for both wings, castling(<ordinary move>) == NO_CASTLING (all code values 0..3 of the field)
+    from rules.norm import eval_function as _ef
+    mk, mq = _ef(p, 'engine::create_castling', [kc]), _ef(p, 'engine::create_castling', [qc])
+    ordinary = [_ef(p, 'engine::create_promotion', [a_, b_, k_]) for a_, b_, k_ in ((0, 63, 0), (12, 28, 0), (52, 60, 5), (63, 0, 2))]
+    if mk is None or mq is None or any(o is None for o in ordinary) or cs is None:
+        raise AnalysisBroken('C16: create_castling/create_promotion not evaluable on constants')
+    back = {m_: _ef(p, 'engine::castling', [m_]) for m_ in [mk, mq] + ordinary}
+    field = {(m_ >> cs) & ((1 << (cw or 2)) - 1) for m_ in (mk, mq)}
+    ok = back[mk] == kc and back[mq] == qc and all(back[o] == nc for o in ordinary) and mk != mq and 0 not in field and \
+        all(_ef(p, 'engine::castling', [c_ << cs]) in (nc, kc, qc) for c_ in range(1 << (cw or 2))) and \
+        _ef(p, 'engine::castling', [0]) == nc
+    codes = {kc: (mk >> cs) & 3, 'other': (mq >> cs) & 3}
+    dmap = {c_: _ef(p, 'engine::castling', [c_ << cs]) for c_ in range(4)}
     ctx.ob('C16.R1.castling-codes', 'create_castling~castling', ok,
            'castling codes round-trip: encoder %s, decoder %s (0 -> NO_CASTLING)' % (codes, dmap), site=cf.loc())
     n_as, fails = compile_witness('C16.cc')
@@ -229,34 +239,39 @@ def check(ctx):
                         if is_white_first and sa and sb:
                             spell[(wing, 'W')] = sa[0]
                             spell[(wing, 'B')] = sb[0]
-    # parser: conjunctions from==SQ_x && to==SQ_y -> create_castling(wing)
+    # parser: which move parse_uci returns, as a decision table over (from, to, piece kind on from); how the tests are nested does not matter
+    from rules.norm import Norm, eval_function, Unknown
+    sqs = p.enum('engine::Square')
+    rets_pu = [x for x in pu.all_nodes() if x['k'] == 'ReturnStmt']
+    final = [x for x in rets_pu if x in kids(pu.body)]
+    if len(final) != 1:
+        raise AnalysisBroken('C16: parse_uci has no single final return')
+    codes = {eval_function(p, 'engine::create_castling', [kc]): kc, eval_function(p, 'engine::create_castling', [qc]): qc}
     pmap = {}
-    for n in pu.all_nodes():
-        if n['k'] == 'IfStmt':
-            c = kids(n)[0]
-            eqs = {}
-            king = False
-            for x in walk(c):
-                if x['k'] == 'BinaryOperator' and x.get('op') == '==':
-                    l, r = [strip_casts(y) for y in kids(x)]
-                    nm = short(l.get('ref', {}).get('n', ''))
-                    if nm in ('from', 'to') and const_of(r) is not None:
-                        eqs[nm] = const_of(r)
-                    if const_of(r) == pk['KING']:
-                        king = True
-            wing = None
-            for x in walk(kids(n)[1]):
-                if x.get('callee', {}).get('n') == 'engine::create_castling':
-                    wing = const_of(strip_casts(kids(x)[1]))
-            if wing is not None and 'from' in eqs and 'to' in eqs and king:
-                pmap[(eqs['from'], eqs['to'])] = wing
-
+    for fr in ('SQ_E1', 'SQ_E8', 'SQ_D1', 'SQ_E2'):
+        for to_ in ('SQ_G1', 'SQ_C1', 'SQ_G8', 'SQ_C8', 'SQ_F1', 'SQ_H1', 'SQ_A1', 'SQ_E3'):
+            for kind in (pk['KING'], pk['QUEEN']):
+                val = {'make_piece_kind(_board[%d])' % sqs[fr]: kind, 'get_piece_kind(_board[%d])' % sqs[fr]: kind,
+                       '_board[%d]' % sqs[fr]: 6 if kind == pk['KING'] else 5}
+                nm = Norm(pu, env={'from': sqs[fr], 'to': sqs[to_]})
+                nm.val = val
+                v = nm.cval(kids(final[0])[0])
+                if v in codes:
+                    if kind != pk['KING']:
+                        pmap[(64 + sqs[fr], sqs[to_])] = codes[v]       # castling code for a piece that is not a king: shows up as an extra entry
+                    else:
+                        pmap[(sqs[fr], sqs[to_])] = codes[v]
+                elif v is None:
+                    s_ = nm.s(kids(final[0])[0])
+                    if not s_.startswith('create_promotion('):
+                        raise AnalysisBroken('C16: parse_uci returns `%s` for a move from %s to %s; not understood' % (s_, fr, to_))
     def sqname(s):
-        return 'abcdefgh'[s % 8] + '12345678'[s // 8]
+        return ('?' if s >= 64 else '') + 'abcdefgh'[s % 8] + '12345678'[(s % 64) // 8]
     pm2 = {sqname(a) + sqname(b): w for (a, b), w in pmap.items()}
     want = {spell.get(('KING_CASTLING', 'W')): kc, spell.get(('KING_CASTLING', 'B')): kc,
             spell.get(('QUEEN_CASTLING', 'W')): qc, spell.get(('QUEEN_CASTLING', 'B')): qc}
     ok = len(spell) == 4 and pm2 == want and want == {'e1g1': kc, 'e8g8': kc, 'e1c1': qc, 'e8c8': qc}
+    ctx.info['castling_spelling'] = {'spell': str(spell), 'parser': str(pm2), 'want': str(want)}
     ctx.ob('C16.R2.castling-spelling', 'uci~parse_uci', ok,
            'the four castling spellings printed by uci() are exactly the king moves parse_uci turns into castling codes, same wing',
            site=pu.loc(), detail={'printed': str(spell), 'parsed': str(pm2)})
